@@ -40,6 +40,11 @@ def templates(cfg):
     T("string_to_int_arith", lambda p, t: t >> p.mutate(y=t.s.cast(p.Int64()) + t.a), S_S, alphabet=DIGITS)
     T("string_to_int_roundtrip", lambda p, t: t >> p.mutate(y=t.a.cast(p.String()).cast(p.Int64())), S_S, int_bound=999)
     T("string_to_int_filter", lambda p, t: t >> p.filter(t.s.cast(p.Int64()) > t.a), S_S, alphabet=DIGITS)
+    T("int_to_generic_float", lambda p, t: t >> p.mutate(y=t.a.cast(p.Float()) + t.f))
+    T("int_to_generic_float_to_string", lambda p, t: t >> p.mutate(y=t.a.cast(p.Float()).cast(p.String())), int_bound=1000)
+    T("int_to_float64_to_string", lambda p, t: t >> p.mutate(y=t.a.cast(p.Float64()).cast(p.String())), int_bound=1000)
+    T("float_to_string", lambda p, t: t >> p.mutate(y=t.f.cast(p.String())), int_bound=100)
+    T("float_to_string_concat", lambda p, t: t >> p.mutate(y=t.f.cast(p.String()) + "|" + t.a.cast(p.String())), int_bound=100)
     T("cast_in_when", lambda p, t: t >> p.mutate(y=p.when(t.p).then(t.f.cast(p.Int64())).otherwise(t.a)))
     T("cast_of_when", lambda p, t: t >> p.mutate(y=p.when(t.p).then(t.f).otherwise(t.a).cast(p.Int64())))
     T("cast_group_key", lambda p, t: t >> p.mutate(k=t.f.cast(p.Int64())) >> p.group_by(p.C.k) >> p.summarize(n=p.count()))
